@@ -487,7 +487,7 @@ def equivalent_variant(tp: Tape, m: Model):
 
 MUTATIONS = ("element", "add-bond", "del-bond", "move-bond", "role",
              "parity", "swap-ligands", "ez", "change-role", "drop-desc",
-             "placeholder")
+             "placeholder", "two-switch")
 
 
 def mutate(tp: Tape, m: Model):
@@ -527,6 +527,33 @@ def _mutate(tp: Tape, m: Model):
             if not _mentions_bond(m, b):
                 del m.bonds[b]
                 return m, kind
+        if kind == "two-switch" and len(m.bonds) >= 2:
+            # a-b, c-d  ->  a-d, c-b : every atom keeps its degree
+            cen = _centres(m)
+            bl = tp.shuffle(sorted(m.bonds, key=sorted))
+            done = False
+            for b1 in bl[:6]:
+                for b2 in bl[:6]:
+                    if b1 & b2 or _mentions_bond(m, b1) or \
+                            _mentions_bond(m, b2) or (b1 | b2) & cen:
+                        continue
+                    a, b = sorted(b1)
+                    c, d = sorted(b2)
+                    if tp.chance(128):
+                        c, d = d, c
+                    if frozenset((a, d)) in m.bonds or \
+                            frozenset((c, b)) in m.bonds:
+                        continue
+                    at1, at2 = m.bonds.pop(b1), m.bonds.pop(b2)
+                    m.bonds[frozenset((a, d))] = at1
+                    m.bonds[frozenset((c, b))] = at2
+                    done = True
+                    break
+                if done:
+                    break
+            if done:
+                return m, kind
+            continue
         if kind == "move-bond" and m.bonds and len(atoms) >= 3:
             b = tp.pick(sorted(m.bonds, key=sorted))
             if _mentions_bond(m, b):
@@ -917,3 +944,60 @@ def collide_ids(tp: Tape, m: Model):
             mp[a] = fresh
             fresh += 1
     return m.relabel(mp)
+
+
+def bis_chelate(tp: Tape, cls="SMG"):
+    """square-planar M(L~L)2: two chelate bridges, once spanning adjacent
+    positions (cis) and once opposite ones (trans).  Same constitution, all
+    donor atoms equivalent under colour refinement; -> (cis, trans)"""
+    ids = draw_ids(tp, 12, None)
+    mid, don, br = ids[0], ids[1:5], ids[5:7]
+    m = Model(cls)
+    m.add_atom(mid, tp.pick([78, 46, 28]))
+    zd = tp.pick([7, 15, 8])
+    for a in don:
+        m.add_atom(a, zd)
+        m.add_bond(mid, a)
+    zb = tp.pick([6, 14])
+    long_bridge = tp.chance(128)
+    chain = []
+    for k, (p, q) in enumerate(((don[0], don[1]), (don[2], don[3]))):
+        b = br[k]
+        m.add_atom(b, zb)
+        m.add_bond(p, b)
+        if long_bridge:
+            b2 = ids[7 + k]
+            m.add_atom(b2, zb)
+            m.add_bond(b, b2)
+            m.add_bond(b2, q)
+        else:
+            m.add_bond(b, q)
+    cis, trans = m.copy(), m.copy()
+    # ring order of SquarePlanar: consecutive positions are adjacent
+    cis.set_atom_stereo(["SquarePlanar", [mid, don[0], don[1], don[2], don[3]],
+                         0])
+    trans.set_atom_stereo(["SquarePlanar",
+                           [mid, don[0], don[2], don[1], don[3]], 0])
+    return cis, trans
+
+
+def palindrome_pair(tp: Tape, cls="MG"):
+    """two chains X-s-C-D-reversed(s)-Y and X-s-D-C-reversed(s)-Y (X != Y,
+    C != D): every atom has the same element and the same neighbour elements
+    in both, all atoms are distinguishable, yet the chains are not isomorphic
+    -> (m1, m2)"""
+    pool = tp.shuffle([6, 7, 8, 15, 16, 9, 17, 35, 14, 5])
+    x, y, c, d = pool[:4]
+    k = 1 + tp.below(3)
+    seg = [tp.pick(pool[4:]) for _ in range(k)]
+    ids = draw_ids(tp, 2 * k + 4, None)
+    out = []
+    for mid in ((c, d), (d, c)):
+        els = [x] + seg + list(mid) + seg[::-1] + [y]
+        m = Model(cls)
+        for a, z in zip(ids, els):
+            m.add_atom(a, z)
+        for a, b in zip(ids, ids[1:]):
+            m.add_bond(a, b)
+        out.append(m)
+    return out[0], out[1]
